@@ -296,9 +296,20 @@ func ruleR8(c *Ctx) {
 			}
 			// deferred sends would also come after
 			for _, d := range g.Defers {
-				if _, s := nodeSendsTrace(in, d.Node().(*ast.DeferStmt).Call); s {
+				dcall := d.Node().(*ast.DeferStmt).Call
+				if _, s := nodeSendsTrace(in, dcall); s {
 					found = true
 					wit = "a deferred Send runs after the terminal trace"
+				}
+				// a deferred function literal that sends (even conditionally) runs after it as well
+				if lit, ok := unparen(dcall.Fun).(*ast.FuncLit); ok {
+					ast.Inspect(lit.Body, func(m ast.Node) bool {
+						if cl, ok := m.(*ast.CallExpr); ok && isTracerMethod(in, cl, "Send") {
+							found = true
+							wit = "the function literal deferred at " + p.Pos(lit.Pos()) + " sends a trace; it runs after the terminal trace on every exit"
+						}
+						return true
+					})
 				}
 			}
 			c.Check(!found, root, pt.Node(), "Send("+t+")", "the "+t+" of a token is its last trace", wit)
